@@ -49,8 +49,11 @@ def gen_call(ctx: Ctx, P, for_mean=False):
     retain = rng.random() < 0.3
     model_inputs = reach if inputs is None else list(dict.fromkeys(inputs))
     pre = rand_pre(rng, P, P.leaves())
+    # `inputs: Iterable[Tensor]`, `tensors: Sequence[Tensor]`: any kind of iterable is legal, one-shot ones included
+    inputs_kind = rng.choice(["list", "list", "tuple", "gen", "iter", "dictkeys"])
+    tensors_kind = rng.choice(["list", "list", "tuple"])
     return dict(tensors=tensors, inputs=inputs, model_inputs=model_inputs, agg=agg, chunk=chunk,
-                retain=retain, pre=pre, m=m)
+                retain=retain, pre=pre, m=m, inputs_kind=inputs_kind, tensors_kind=tensors_kind)
 
 
 def one(ctx: Ctx, P, call, dtypes):
@@ -66,7 +69,8 @@ def one(ctx: Ctx, P, call, dtypes):
             ctx.count("skipped_magnitude")
             continue
         rerr, rg, _ = real_backward(P, dtype, call["tensors"], call["inputs"], call["agg"], call["chunk"],
-                                    call["retain"], call["pre"], report)
+                                    call["retain"], call["pre"], report,
+                                    inputs_kind=call.get("inputs_kind", "list"), tensors_kind=call.get("tensors_kind", "list"))
         touched = sum(1 for k in report if rg[k] != (None if call["pre"].get(k) is None else
                                                      [x for x in map(int, call["pre"][k])]))
         spec = {k: v for k, v in call.items() if k not in ("pre",)}
@@ -78,6 +82,7 @@ def one(ctx: Ctx, P, call, dtypes):
         ctx.count("agg", call["agg"][0])
         ctx.count("chunk", call["chunk"])
         ctx.count("n_inputs", "None" if call["inputs"] is None else len(call["inputs"]))
+        ctx.count("inputs_passed_as", "None" if call["inputs"] is None else call.get("inputs_kind", "list"))
         ctx.count("rows", call["m"])
         ctx.count("outcome", rerr or "ok")
         if rerr != merr or rg != mg:
@@ -144,7 +149,8 @@ def main(ctx: Ctx):
     return ctx.finish(
         rule="random P-int programs (integer DAGs: affine torch ops incl. multi-output split/unbind, "
              "element-wise products, reuse, detach, leaves not requiring grad, 0-d..4-d shapes) x random calls "
-             "(1-4 output tensors, explicit input subsets in random order / with duplicates / None, Constant with "
+             "(1-4 output tensors as list/tuple, explicit input subsets in random order / with duplicates / None, passed as "
+             "list, tuple, generator, iterator or dict-keys view, Constant with "
              "distinct weights / Sum / Mean / Gramian-coupled probe aggregator, chunk sizes None,1,2,3,m,m+2, "
              "pre-existing .grad); .grad of every leaf compared EXACTLY with the Lean model. non-trivial = call "
              "succeeded and changed at least one .grad; distinct = distinct (program, call, dtype)",
